@@ -14,6 +14,7 @@ from vlib.filt import AREA, UIDS, build_impl, probe, uid_list, malformed_list, n
 
 EUIDS = [0, 7, 1000, 65534, 2 ** 32 - 2]
 HIGH_UIDS = [2 ** 32 - 10, 2 ** 32 - 6, 2 ** 32 - 3]      # the top of the uid range (2^32-1 is not a uid), fewer lists each
+NEUTRAL = b"exclude_spawns_of:nosuchproc9,nosuchproc8;"      # passes in every process tree of the harness
 ERRNOS = [34, 22]                                        # ERANGE, EINVAL: what the host program may have left in errno
 
 
@@ -82,6 +83,10 @@ def gen_cases(rng, tier):
                 e2 = rng.choice([x for x in EUIDS if x not in (r, e)])
                 for w in ("only", "exclude"):
                     add("uidf\t%s\t%d\t%d\t%s" % (w, r, e2, hexs(L)), kind="wf", uid=r, n=L.count(b",") + 1, include=inc)
+                if len(L) < 850:
+                    # ... also behind a passing filter with a longer name and an argument (the uid filter must still be found)
+                    add("full\t%d\t%d\t0\t%s" % (r, e, hexs(NEUTRAL + b"only_uid:" + L)), kind="chain", uid=r)
+                    add("full\t%d\t%d\t0\t%s" % (r, e, hexs(NEUTRAL + b"exclude_uid:" + L)), kind="chain", uid=r)
                 if len(L) < 900:
                     add("full\t%d\t%d\t0\t%s" % (r, e, hexs(b"only_uid:" + L)), kind="chain", uid=r)
                     add("full\t%d\t%d\t0\t%s" % (r, e, hexs(b"exclude_uid:" + L)), kind="chain", uid=r)
@@ -129,6 +134,8 @@ def spec_line(cf, rf):
     if cf[0] == "full" and len(rf) > 1 and rf[1] in ("P", "D"):
         # a chain that consists of one uid filter decides as that filter
         ch = unhex(cf[4]) or b""
+        if ch.startswith(NEUTRAL):
+            ch = ch[len(NEUTRAL):]
         for w, pre in (("only", b"only_uid:"), ("exclude", b"exclude_uid:")):
             if ch.startswith(pre) and b";" not in ch:
                 return "\t".join(["spec14", w, cf[1], hexs(ch[len(pre):]), rf[1]])
